@@ -236,15 +236,15 @@ def run_check(tier, seed):
     run = Run(PID, tier, seed)
     rng = random.Random(seed * 1000003 + 2)
     q = tier == "quick"
-    nrepos = 110 if q else 2500
+    nrepos = 110 if q else 1500
     root = tempfile.mkdtemp(prefix="zv02-")
     st = run.streams.setdefault("random_histories", {"repositories": 0, "runs": 0, "with_merge": 0, "with_unreachable_tags": 0, "detached": 0, "dirty": 0, "no_valid_tag": 0,
                                                     "commits_total": 0, "tags_total": 0, "model_agree": 0, "model_disagree": 0, "build_failures": 0})
     try:
-        repos = []
-        for i in range(nrepos):
-            p = os.path.join(root, f"r{i}")
-            script = rand_history(rng)
+        scripts = [(os.path.join(root, f"r{i}"), rand_history(rng)) for i in range(nrepos)]
+
+        def build(ps):
+            p, script = ps
             try:
                 ign = ("ignored",) in script
                 gitfx.build_repo(p, [s for s in script if s != ("ignored",)])
@@ -252,17 +252,21 @@ def run_check(tier, seed):
                     with open(os.path.join(p, ".git", "info", "exclude"), "a") as f:
                         f.write("ignored.tmp\n")
                     open(os.path.join(p, "ignored.tmp"), "w").write("x")
-            except Exception as ex:
-                st["build_failures"] += 1
+                return True
+            except Exception:
                 shutil.rmtree(p, ignore_errors=True)
-                continue
-            repos.append((p, script))
+                return False
+        with concurrent.futures.ThreadPoolExecutor(max_workers=NPROC) as ex:
+            built = list(ex.map(build, scripts))
+        repos = [ps for ps, ok in zip(scripts, built) if ok]
+        st["build_failures"] = built.count(False)
         for name, p in gitfx.standard_repos(os.path.join(root, "std")).items():
             if name not in ("not_a_repo", "ahead_subdir"):
                 repos.append((p, [("standard", name)]))
         jobs = []
-        for p, script in repos:
-            obs = observe(p)
+        with concurrent.futures.ThreadPoolExecutor(max_workers=NPROC) as ex:
+            observed = list(ex.map(observe, [p for p, _ in repos]))
+        for (p, script), obs in zip(repos, observed):
             st["repositories"] += 1
             st["commits_total"] += len(obs["commits"])
             st["tags_total"] += len(obs["tags"])
